@@ -242,8 +242,16 @@ Definition topk_step_ok (t : Logql.topk) (c : pctx) (inner : list vrow) (out : l
 (* 0 = the statement's rows are a threshold-filtered top-/bottom-k selection of the inner vector's reference (re-bucketed to the step
    when that is longer than the range); 1 = they are not; 2 = the statement does not evaluate; 3 = not judged (a longer step and more
    than topk_cap kept sets to try) *)
+(* metric_ref re-buckets its vector to a longer step; the inner vector of a selection is the one BEFORE that: the reference of the inner
+   script under a step that re-buckets nothing *)
+Definition ctx_step1 (c : pctx) : pctx :=
+  {| c_from_ns := c_from_ns c; c_to_ns := c_to_ns c; c_limit := c_limit c; c_asc := c_asc c; c_cluster := c_cluster c; c_type := c_type c;
+     c_finalize := c_finalize c; c_step_ns := 1%Z; t_gin := t_gin c; t_samples := t_samples c; t_ts := t_ts c; t_ts_dist := t_ts_dist c;
+     t_m15 := t_m15 c |}.
+Definition topk_inner_rows (t : Logql.topk) (c : pctx) (d : LogqlSem.database) : option (list vrow) :=
+  ref_rows (topk_inner t) (if Z.ltb (get_duration (STopK t)) (c_step_ns c) then ctx_step1 c else c) d.
 Definition topk_verdict (t : Logql.topk) (c : pctx) (d : LogqlSem.database) (rows : option table) : Z :=
-  match rows, ref_rows (topk_inner t) c d with
+  match rows, topk_inner_rows t c d with
   | Some tb, Some inner =>
     match map_opt out_of_row tb with
     | Some out =>
@@ -277,7 +285,7 @@ Definition impl_case (s0 s : script) (c : pctx) (d : LogqlSem.database) (tree : 
                  match r1, ref_rows_def s0 c d with Some _, Some _ => verdict_rows r1 (ref_rows_def s0 c d) | _, _ => 2%Z end);
      io_wdef := (if agg_grouped s0 then None else ref_rows_def s0 c d);
      io_got := option_map (map out_of_row) r1;
-     io_want := (match s with STopK t => ref_rows (topk_inner t) c d | _ => want end) |}.
+     io_want := (match s with STopK t => topk_inner_rows t c d | _ => want end) |}.
 (* what the check prints for a case: verdicts under both tie orders, and the two answers for a replay *)
 Record exec_obs := { eo_v1 : Z; eo_v2 : Z; eo_vdef : Z; eo_wdef : option (list vrow); eo_got : option (list (option (lmap * Z * Q))); eo_want : option (list vrow) }.
 Definition exec_case (s : script) (c : pctx) (d : LogqlSem.database) : exec_obs :=
